@@ -283,10 +283,25 @@ Fixpoint printed_eqb (a : list (list (list Z))) (b : printed) : bool :=
   | _, _ => false
   end.
 
-(* bit 0: model <> implementation ; bit 1: implementation <> reference interpreter of the CSS rules *)
+(* the open finding "an explicit counter-increment on a list item suppresses the implicit list-item increment",
+   as a transformation of the document: such list items are treated as if they were not list items *)
+Definition strip_props (p : props) : props :=
+  match p_inc p with
+  | Some l => if p_list_item p && negb (mentions "list-item"%string l)
+              then mkProps (p_reset p) (p_set p) (p_inc p) false else p
+  | None => p
+  end.
+Fixpoint strip (nd : node) : node :=
+  match nd with
+  | Elem d p b kids a => Elem d (strip_props p) (option_map strip_props b) (map strip kids) (option_map strip_props a)
+  end.
+
+(* bit 0: model <> implementation ; bit 1: implementation <> reference interpreter of the CSS rules ;
+   bit 2: implementation <> reference interpreter even when the known list-item deviation is granted *)
 Definition scope_judge (c : list name * node * printed) : nat :=
   let '(names, doc, out) := c in
   let m := match run_node init_state doc with Some (_, o) => Some (map (show names) o) | None => None end in
   let r := map (show names) (snd (ref_node init_levels doc)) in
+  let r' := map (show names) (snd (ref_node init_levels (strip doc))) in
   ((match m with Some p => if printed_eqb p out then 0 else 1 | None => 1 end) +
-   (if printed_eqb r out then 0 else 2))%nat.
+   (if printed_eqb r out then 0 else 2) + (if printed_eqb r' out then 0 else 4))%nat.
